@@ -19,7 +19,9 @@ Print Assumptions limits_tie.
 (* No program loops: the interpreter is structurally recursive over the code
    of each segment, calls nest at most 10 deep, so fuel 11 (one level per
    nested segment) always suffices, for every charstring, every pair of
-   subroutine tables and every fuel >= 11. *)
+   subroutine tables and every fuel >= 11.  Termination is all the format
+   guarantees: the amount of work is bounded only exponentially in the nesting
+   depth, see t2_steps_bound below. *)
 Theorem t2_terminates :
   forall (dflt nom : Z) (subrs gsubrs : subrtab) (code : list N) (fuel : nat),
     (S cff_t2_maxCallDepth <= fuel)%nat ->
@@ -35,13 +37,6 @@ Proof.
   split; [apply G; exact Hf|apply G; unfold t2_fuel; lia].
 Qed.
 Print Assumptions t2_terminates.
-
-(* The state in which an execution ends, whatever the outcome. *)
-Definition final_state (r : res) : option state :=
-  match r with
-  | RDone st | RRet st | RFell st | RErr _ st | RUnspec st => Some st
-  | RFuel => None
-  end.
 
 (* The operand stack never holds more than maxStack entries (hw is the
    high-water mark, updated by every write to the stack), the transient array
@@ -63,6 +58,21 @@ Proof.
   repeat split; try assumption. rewrite H3. reflexivity.
 Qed.
 Print Assumptions t2_stack_bound.
+
+(* The work for one glyph: the number of operands and operators executed
+   (nsteps, incremented at every one of them) is at most L*(M+1)^10 for a
+   charstring of L bytes and subroutines of at most M bytes.  This bound is
+   exponential in the nesting depth and is attained up to a constant factor
+   (Examples.ex_fanout: fan-out 2, depth 10, 51 bytes, 6139 steps; fan-out 8
+   makes it 10^9 from 171 bytes).  The specification has no other limit; the
+   implementation therefore enforces a budget of cff_t2_maxSteps executed
+   operands and operators (fix C05-total-steps-budget), which S_t2 does not
+   have: programs above the budget are outside the compared domain. *)
+Theorem t2_steps_bound :
+  forall (subrs gsubrs : subrtab) (code : list N),
+    (final_steps (S_t2_state subrs gsubrs code) <= t2_step_bound subrs gsubrs code)%N.
+Proof. exact steps_bound_lemma. Qed.
+Print Assumptions t2_steps_bound.
 
 (* put and get only ever touch slots 0..31 *)
 Theorem storage_index_bound :
@@ -154,7 +164,7 @@ Theorem call_depth_rejected :
     pend st = O -> lex_num code = NotNum -> lex_op code = OpOk o rest ->
     (o = OCallsubr \/ o = OCallgsubr) -> stk st = v :: r -> is_int v = true ->
     (cff_t2_maxCallDepth <= depth st)%nat ->
-    go subrs gsubrs call st code = RErr EDepth (with_stk r st).
+    go subrs gsubrs call st code = RErr EDepth (with_stk r (tick st)).
 Proof.
   intros subrs gsubrs call st code o rest v r Hp Hn Ho Hc Hs Hi Hd.
   exact (proj1 (bad_call_rejected subrs gsubrs call st code o rest v r Hp Hn Ho Hc Hs Hi) Hd).
